@@ -354,6 +354,40 @@ def run_job(job):
                                      {"query": qw, "diff": sorted(os.path.basename(x) for x in got ^ exp)[:6]})
                             continue
                         res.count("where_on_expression_checked")
+                        # a comparison written the other way round, with the number spelled as arithmetic over literals
+                        # (`2 * 3 < size` for `size > 6`): a constant expression has a value like any other. The right operand
+                        # is a plain column: a glued `size*2` there is one unquoted value (`name = *.txt`), by design
+                        mirror = {">": "<", ">=": "<=", "<": ">", "<=": ">=", "=": "=", "!=": "!=", "===": "===", "!==": "!==",
+                                  "eeq": "eeq", "ene": "ene", "gte": "lte", "lt": "gt", "ne": "ne"}[op]
+                        c_ = rng.choice(["size", "size", "hardlinks", "uid"])
+                        if any(c_ not in envs[p] for p in table if p in envs):
+                            c_ = "size"
+                        n_ = int(rng.choice([envs[p][c_] for p in table if p in envs]))
+                        k_ = rng.randint(1, 9)
+                        forms = ["%d - %d" % (n_ + k_, k_)]
+                        if n_ >= k_:
+                            forms.append("%d + %d" % (n_ - k_, k_))
+                        if n_ > 0 and n_ % k_ == 0:
+                            forms.append("%d * %d" % (n_ // k_, k_))
+                        if 0 <= n_ < 10 ** 6:
+                            forms.append("%d / %d" % (n_ * k_, k_))
+                        left = rng.choice(forms)
+                        if rng.random() < 0.3:
+                            left = "(" + left + ")"
+                        qm = "path from %s where %s %s %s into list" % (frm, left, mirror, c_)
+                        rm_ = run(qm)
+                        if rm_.verdict == "ok" and rm_.rc == 0 and not rm_.err:
+                            gotm = set(os.path.normpath(os.path.join(w, x)) for x in rm_.rows())
+                            expm = set(p for p in table if p in envs and model.int_cmp(model.canon_op(op), float(envs[p][c_]), float(n_)))
+                            if gotm != expm:
+                                res.viol("`where %s %s %s`: %d entries misclassified (it says %s %s %d)" % (
+                                    left, mirror, c_, len(gotm ^ expm), c_, op, n_),
+                                    {"query": qm, "diff": sorted(os.path.basename(x) for x in gotm ^ expm)[:6]})
+                                continue
+                            res.count("where_with_literal_arithmetic_on_the_left")
+                        elif rm_.verdict == "ok":
+                            res.viol("`%s`: status %s stderr %r" % (qm, rm_.rc, rm_.err[:120]), {"query": qm, "result": rm_.brief()})
+                            continue
                     elif rw.verdict == "ok":
                         res.viol("`%s`: status %s stderr %r" % (qw, rw.rc, rw.err[:120]), {"query": qw, "result": rw.brief()})
                         continue
@@ -391,5 +425,5 @@ def main(chk):
              "Non-trivial: every list (>= 3 entries evaluated); distinct by the rendered select list.",
         assumptions=["Python floats implement the same IEEE-754 double arithmetic (+ - * /, fmod) as Rust f64",
                      "power() overflow/domain cases are don't-care"],
-        require={"root_kinds": 8, "independence_checked": 50, "where_on_expression_checked": 20},
+        require={"root_kinds": 8, "independence_checked": 50, "where_on_expression_checked": 20, "where_with_literal_arithmetic_on_the_left": 10},
     )
